@@ -244,6 +244,38 @@ theorem po_vs_mo_check {F₁ F₂ : Type} (p : Parts κ τ) (statOk : Bool)
   rw [hext]
   exact key
 
+/-- The hypothesis `hload` cannot be dropped: the clause is FALSE for a PO loader and an MO loader that read the charset
+    declaration differently.  That happens on the real code (recorded finding `po-vs-mo:charset-declaration`): for
+    `Content-Type: text/plain;charset=UTF-8` (no blank before `charset=`) polib's detection regex finds no charset, the PO file
+    is decoded as ASCII and the first attempt raises `UnicodeDecodeError`, while moparser's `charset=([^ \t\n]+)` finds UTF-8.
+    In the model: an MO loader that succeeds, a PO loader whose first attempt raises `UnicodeDecodeError`. -/
+def PoVsMoUnconditional : Prop :=
+  ∀ (p : Parts Unit Unit) (loadMo loadPo : Bool → Except LoadErr Unit),
+    Spec.Metamorphic.EqModulo (keepLine notExempt)
+      (check true .mo loadMo (fun _ _ => ((⟨true, false⟩ : BinFlags), ())) (pipeline p)).lines
+      (check true .po loadPo (fun _ _ => ((⟨false, false⟩ : BinFlags), ())) (pipeline p)).lines
+
+def quietParts : Parts Unit Unit where
+  comments := fun k => (k, [], false)
+  headers := fun k => (k, [], false)
+  language := fun k => (k, [], false)
+  plurals := fun k => (k, [], false)
+  mime := fun k => (k, [], false)
+  resetEncoding := id
+  dedup := id
+  perDate := fun _ _ _ => []
+  potDates := fun _ => [['d']]
+  poDates := fun _ => [['d']]
+  project := fun k => (k, [], false)
+  translator := fun k => (k, [], false)
+  messages := fun _ => ([], false, 1)
+
+theorem po_vs_mo_unconditional_refuted : ¬ PoVsMoUnconditional := by
+  intro h
+  have := h quietParts (fun _ => .ok ()) (fun retry => if retry then .ok () else .error .unicodeDecode)
+  simp [Spec.Metamorphic.EqModulo, check, afterLoad, runStages, pipeline, blind, datesStage, messagesStage, quietParts,
+    checkDates, checkDatesField, emptyFileGate, keepLine] at this
+
 /-! ## 4b. why the PO file of the PO-versus-MO clause is taken in msgfmt order
 
 `unusual-character-in-translation` reports each character once per file, under the first message (in file order) whose
